@@ -165,8 +165,9 @@ class Mitochondria:
 
     # Safe boolean operators
     SAFE_BOOL_OPS = {
-        ast.And: lambda values: all(values),
-        ast.Or: lambda values: any(values),
+        # Python semantics: `and` yields the first falsy operand (else the last), `or` the first truthy one
+        ast.And: lambda values: next((v for v in values if not v), values[-1]),
+        ast.Or: lambda values: next((v for v in values if v), values[-1]),
     }
 
     # Safe math functions and constants
